@@ -26,7 +26,9 @@
 // (3) spawn_vehicle_to_replace_dummy_tour(&self, d, vt): Err if d is not a dummy; C01: Err if a node of the dummy tour is not
 //     compatible with the type; D11: Err if all 2^16 ids have been handed out; on Ok there is an intermediate schedule `mid` = self without the dummy (dummy_deleted, the
 //     Ok-postcondition of delete_dummy) such that the result satisfies the whole postcondition of
-//     mid.spawn_vehicle_for_path(vt, nodes of the dummy tour) (spawn_post: text of the ensures of slices/spawn_vehicle.vs);
+//     mid.spawn_vehicle_for_path(vt, nodes of the dummy tour) (spawn_post: text of the ensures of slices/spawn_vehicle.vs,
+//     including C02 / C13: the start depot chosen is the nearest start depot node with room w.r.t. the old usage table, its limits
+//     hold for the new table, the end depot chosen is the nearest end depot node);
 //     corollaries stated directly: the dummy is gone and no other dummy tour changed, one new vehicle of the type under
 //     Vehicle(self.vehicle_counter) whose tour is compatible with the type and keeps every trip of the dummy tour.
 //
@@ -36,7 +38,9 @@
 //            Tour::sub_path (tour_pos, env/tour_pos_fns.vs), Tour::new_dummy, Schedule::add_dummy_tour (remove_segment),
 //            Schedule::update_train_formation (train_formation_update; R12 parameter type SeqIter<NodeIdx>),
 //            Schedule::update_depot_usage (depot_usage), Schedule::update_transitions_and_violation_fast (sched_guard),
-//            Schedule::spawn_vehicle_for_path (spawn_vehicle)
+//            Schedule::spawn_vehicle_for_path (spawn_vehicle; WITH the preconditions it got from find_best_start_depot_for_spawning:
+//            start_depots_ok, usage_counts_small, some_depot_has_room -- their vocabulary is the last block of
+//            env/spawn_vehicle_shim.vs)
 //   A-iter   Tour::all_nodes_iter yields the tour's nodes in order (stub returning SeqIter, text as in slices/spawn_vehicle.vs /
 //            json_writer.vs; R7b), env/seqiter.vs (`viter`, `any`, `collect`), R5 on `nodes.iter()`
 //   from env/spawn_vehicle_shim.vs (included, nothing new): A-std7 <[T]>::binary_search, Result::unwrap_or_else; A-std8
@@ -61,12 +65,22 @@
 //   (2) dummy_listed_ok  C10 listings: dummy_ids_sorted is sorted and holds d (if d is a dummy)
 //   (3) sv_ok + type_known(vt): the preconditions of spawn_vehicle_for_path (slices/spawn_vehicle.vs), stated for `self`
 //       (lemma_spawn_pre_without_dummy carries them over to the intermediate schedule); for a dummy d: dummy_listed_ok,
-//       dummy_tour_ok (a well-formed dummy tour over the schedule's network, A-len) and A-counter: spawn_counter_ok(nodes)
+//       dummy_tour_ok (a well-formed dummy tour over the schedule's network, A-len) and A-counter: spawn_counter_ok(nodes);
+//       NEW (what spawn_vehicle_for_path needs for the choice of the start depot, handed up):
+//       - A-index (instance validity): Network::start_depots_ok -- the start depot node list holds StartDepot nodes of the
+//         network whose depot is in the depot table (how Network::new fills it; not part of sv_ok);
+//       - C06 / C17 (for a dummy d whose tour does not start with a depot, i.e. always): some_depot_has_room(vt, own usage
+//         table) -- SOME start depot node has room for one more vehicle of the type; otherwise `expect("There should be at least
+//         the overflow depot available.")` panics.  Not derivable from sv_ok (the overflow depot's total capacity is a computed
+//         number: slices/network_new.vs, C17, D5); lemma_depot_without_type_limit_suffices says what suffices;
+//       - the magnitude usage_counts_small is NOT a precondition here: derived from sv_ok (lemma_usage_counts_small: an exact
+//         usage table counts real vehicles only, ids are 16 bit).
 //
 // NOT covered: (1) connectedness of the new dummy tour (A-path / D9, as in slices/remove_segment.vs); preservation of rs_ok /
 //   listings_match as a whole (only ids_ok, usage_exact, sortedness of the lists and the transition clauses are shown for the
 //   result); the error messages.  (3) WHEN the result is Ok beyond the three Err clauses (inherited from
-//   spawn_vehicle_for_path, whose contract does not characterise it); that the callers establish the preconditions.
+//   spawn_vehicle_for_path, whose contract does not characterise it); that the callers establish the preconditions, in
+//   particular some_depot_has_room (C17 is not connected to it).
 #![feature(allocator_api)]
 use vstd::prelude::*;
 use std::ops::Add;
@@ -311,6 +325,18 @@ impl Clone for TransitionCycle {
         path_as_vec@.len() >= 1, all_in_net(&self.network, path_as_vec@), tour_len_ok(path_as_vec@),
         // A-counter (magnitude)
         self.spawn_counter_ok(path_as_vec@),
+        // what the choice of the depots needs (find_best_start_depot_for_spawning, slices/depot_choice.vs; not part of sv_ok):
+        // A-index (how Network::new fills the list; not proved in slice network_new): the start depot node list holds StartDepot
+        // nodes of the network whose depot is in the network's depot table
+        self.network.start_depots_ok(),
+        // only if a start depot has to be chosen (the path does not start with a depot):
+        // magnitude: the counts of the schedule's usage table fit u32 (vehicle ids are 16 bit)
+        !self.network.sp_node(path_as_vec@[0]).sp_is_depot() ==> self.usage_counts_small(vehicle_type_idx, self.depot_usage@),
+        // C06 / C17: some start depot node of the network has room for the type w.r.t. the schedule's usage table ("There should
+        // be at least the overflow depot available."; that the overflow depot's capacity suffices is C17, slices/network_new.vs,
+        // D5; lemma_depot_without_type_limit_suffices: a start depot node whose depot lists the type without per-type limit and
+        // where fewer vehicles start in total than its total capacity suffices).  Otherwise `expect` panics.
+        !self.network.sp_node(path_as_vec@[0]).sp_is_depot() ==> self.some_depot_has_room(vehicle_type_idx, self.depot_usage@), // @obl C06.spawn_vehicle.expect_needs_a_depot_with_room
     ensures
         // C01 / C10 "a vehicle only serves service trips of the vehicle's type": "If some node on the path is not
         // compatible with the vehicle type an error is returned", and every node of the new vehicle's tour is compatible
@@ -325,6 +351,26 @@ impl Clone for TransitionCycle {
         // covered / finding" in the header)
         r is Ok ==> activities_kept(&self.network, path_as_vec@, r->Ok_0.0.tours@[r->Ok_0.1].nodes@), // @obl C13.spawn_vehicle.adds_exactly_one_vehicle_with_the_given_path
         r is Ok ==> self.listed(vehicle_type_idx, &r->Ok_0.0, r->Ok_0.1), // @obl C13.spawn_vehicle.adds_exactly_one_vehicle_with_the_given_path
+        // C02 "the number of vehicles starting there stays within the depot's total capacity and within the per-type capacity
+        // (types not listed for a depot never start there)": if the path does not start with a depot, the new vehicle's start depot
+        // node is a start depot node of the network whose depot lists the type and had room for one more vehicle of it, per
+        // type and in total, in the OLD usage table ...
+        r is Ok && !self.network.sp_node(path_as_vec@[0]).sp_is_depot()
+            ==> self.network.start_depot_nodes@.contains(r->Ok_0.0.tours@[r->Ok_0.1].nodes@[0])
+                && self.sp_can_spawn(r->Ok_0.0.tours@[r->Ok_0.1].nodes@[0], vehicle_type_idx, self.depot_usage@), // @obl C02.spawn_vehicle.start_depot_had_room
+        // ... hence the depot's limits hold for the NEW usage table (lemma_spawn_keeps_depot_limits)
+        r is Ok && !self.network.sp_node(path_as_vec@[0]).sp_is_depot()
+            ==> self.depot_limits_hold(r->Ok_0.0.tours@[r->Ok_0.1].nodes@[0], vehicle_type_idx, r->Ok_0.0.depot_usage@), // @obl C02.spawn_vehicle.depot_limits_hold_after_the_spawn
+        // C13 "the vehicle is spawned from the nearest availabe depot": ... and it is the nearest such node (dead-head distance
+        // from the depot to the start location of the first node of the path; ties: the one listed first)
+        r is Ok && !self.network.sp_node(path_as_vec@[0]).sp_is_depot()
+            ==> self.best_start_depot(r->Ok_0.0.tours@[r->Ok_0.1].nodes@[0], vehicle_type_idx, self.network.sp_node(path_as_vec@[0]).sp_start_location(), self.depot_usage@), // @obl C13.spawn_vehicle.nearest_start_depot_with_room
+        // C13 "Similarly, if path does not end with a depot the vehicle is spawned to the nearest depot (from the end location of
+        // the last trip)": if the path neither starts nor ends with a depot, the tour ends at the nearest end depot node
+        // (capacities ignored; ties: the one listed first)
+        r is Ok && !self.network.sp_node(path_as_vec@[0]).sp_is_depot() && !self.network.sp_node(path_as_vec@[path_as_vec@.len() - 1]).sp_is_depot()
+            ==> self.network.nearest_end_depot(r->Ok_0.0.tours@[r->Ok_0.1].nodes@[r->Ok_0.0.tours@[r->Ok_0.1].nodes@.len() - 1],
+                    self.network.sp_node(path_as_vec@[path_as_vec@.len() - 1]).sp_end_location()), // @obl C13.spawn_vehicle.nearest_end_depot
         // C10 "listings sorted and match": if every type's id list held exactly the vehicles of the type, it still does
         r is Ok && self.listings_match() ==> r->Ok_0.0.listings_match(), // @obl C10.spawn_vehicle.listings_still_match
         r is Ok ==> self.formations_follow(&r->Ok_0.0, r->Ok_0.1), // @obl C13.spawn_vehicle.formations_follow_update_train_formation
@@ -498,10 +544,23 @@ impl Clone for TransitionCycle {
         // the preconditions of spawn_vehicle_for_path (slices/spawn_vehicle.vs) ...
         self.sv_ok(),
         self.type_known(vehicle_type_idx),
+        // ... instance validity, A-index (how Network::new fills the list; not proved in slice network_new): the start depot node
+        // list holds StartDepot nodes of the network whose depot is in the network's depot table (not part of sv_ok)
+        self.network.start_depots_ok(),
         // ... and for the dummy tour: C10 listings (delete_dummy), a well-formed dummy tour over the schedule's network,
         // A-len, A-counter (magnitude)
         self.dummy_tours@.contains_key(dummy_idx) ==> self.dummy_listed_ok(dummy_idx) && self.dummy_tour_ok(dummy_idx)
             && self.spawn_counter_ok(self.dummy_tours@[dummy_idx].nodes@),
+        // ... C06 / C17 (schedule validity w.r.t. the instance's depots; NOT derivable from sv_ok): a start depot is chosen for the
+        // new vehicle if the dummy tour does not start with a depot (a dummy tour holds service trips), so SOME start depot node
+        // of the network must have room for one more vehicle of the type, per type and in total, w.r.t. the schedule's usage table --
+        // otherwise `expect("There should be at least the overflow depot available.")` in find_best_start_depot_for_spawning
+        // panics.  "At least the overflow depot": it lists every type without per-type limit, so fewer vehicles starting there
+        // than its (computed: slices/network_new.vs, C17, D5) total capacity suffice (lemma_depot_without_type_limit_suffices).
+        // (The third new precondition of spawn_vehicle_for_path, the magnitude usage_counts_small, IS derived from sv_ok:
+        // lemma_usage_counts_small.)
+        self.dummy_tours@.contains_key(dummy_idx) && !self.network.sp_node(self.dummy_tours@[dummy_idx].nodes@[0]).sp_is_depot()
+            ==> self.some_depot_has_room(vehicle_type_idx, self.depot_usage@), // @obl C06.spawn_to_replace_dummy.expect_needs_a_depot_with_room
     ensures
         // "Cannot spawn vehicle to replace dummy tour {}. Dummy tour does not exist."
         !self.dummy_tours@.contains_key(dummy_idx) ==> r is Err, // @obl C13.spawn_to_replace_dummy.err_if_not_a_dummy
@@ -544,7 +603,11 @@ impl Clone for TransitionCycle {
 //@before "intermediate_schedule.spawn_vehicle_for_path"
         proof {
             if self.dummy_deleted(dummy_idx, &intermediate_schedule) {
-                assert(self.spawn_pre(vehicle_type_idx, path)) by { reveal(Schedule::sv_ok); }
+                assert(self.spawn_pre(vehicle_type_idx, path)) by {
+                    reveal(Schedule::sv_ok);
+                    // magnitude: the counts of an exact usage table are at most the number of vehicles, at most 2^16
+                    lemma_usage_counts_small(self, vehicle_type_idx);
+                }
                 lemma_spawn_pre_without_dummy(self, dummy_idx, &intermediate_schedule, vehicle_type_idx, path);
                 assert(intermediate_schedule.sv_ok()) by { reveal(Schedule::sv_ok); }
             }
